@@ -16,6 +16,19 @@ HERE = os.path.dirname(os.path.abspath(__file__))
 TOOLS = os.path.dirname(HERE)
 
 
+def _load(name):
+    spec = importlib.util.spec_from_file_location(name, os.path.join(HERE, name + ".py"))
+    mod = importlib.util.module_from_spec(spec)
+    spec.loader.exec_module(mod)
+    return mod
+
+
+def pre_build(ctx):
+    """Regenerate Model/AlgoGen{,2,3,4}.lean from the repo under test (tools/translate_algo.py) BEFORE C13's proofs are
+    re-checked: Thm/C13Gen.lean proves the absence of `ub` on those regenerated definitions."""
+    return _load("_algogen").pre_build(ctx)
+
+
 def _inventory_module():
     spec = importlib.util.spec_from_file_location("c13_inventory", os.path.join(TOOLS, "c13_inventory.py"))
     mod = importlib.util.module_from_spec(spec)
@@ -39,13 +52,15 @@ def pre_checks(ctx):
         listed = set(ctx["props"].get("theorems", []))
         missing = set()
         for s in mm["sites"]:
-            for name in re.findall(r"GraafVerif\.C13\.[A-Za-z0-9_']+", s.get("cover", "")):
+            for name in re.findall(r"GraafVerif\.C13(?:Gen)?\.[A-Za-z0-9_']+", s.get("cover", "") + " " + s.get("cover_generated", "")):
                 if name not in listed:
                     missing.add(name)
         if missing:
             out.append("model_map_c13.json names theorems that props/C13.json does not audit: " + ", ".join(sorted(missing)))
     except (OSError, ValueError, KeyError):
         pass
+    # the translator tie: every generated definition has its equality theorem listed (props/AlgoGen*.json)
+    out.extend(_load("_algogen").pre_checks(ctx))
     return out
 
 
